@@ -166,6 +166,7 @@ static void run_cfg_case(struct rng *r, long c)
 	check_order(conf, "init", ng);
 	{
 		int cur = ng;
+		int nextra = 0;
 		uint8_t have[8];
 		uint64_t hh = 0;
 
@@ -204,19 +205,22 @@ static void run_cfg_case(struct rng *r, long c)
 				hh = hmix(hh, 100 + p);
 			} else if (op == 1) {
 				/* remove a preference that is not there */
-				rc = rtr_mgr_remove_group(conf, 33);
+				rc = rtr_mgr_remove_group(conf, 251);
 				if (rc == RTR_SUCCESS)
-					viol("C15", "C15:remove-absent-group-succeeds", "rtr_mgr_remove_group(33) succeeded although no such group exists");
-				hh = hmix(hh, 33);
+					viol("C15", "C15:remove-absent-group-succeeds", "rtr_mgr_remove_group(251) succeeded although no such group exists");
+				hh = hmix(hh, 251);
 			} else {
 				/* add: an unused preference must be accepted (unless the slots are exhausted), a used one refused.
 				 * NB rtr_mgr_add_group starts the best group if it is closed: give it sockets that never connect. */
 				static struct rtr_socket extra[8];
 				static struct rtr_socket *extrap[8][1];
-				static int nextra;
 				struct rtr_mgr_group ng2;
 				bool dup = cur > 0 && rndp(r, 1, 2);
-				uint8_t p = dup ? have[rndn(r, (uint32_t)cur)] : (uint8_t)(100 + step);
+				uint8_t p = dup ? have[rndn(r, (uint32_t)cur)] : (uint8_t)(3 + 29 * step + rndn(r, 5)); /* lands between, before or after the existing ones */
+
+				for (int q = 0; q < cur && !dup; q++)
+					if (have[q] == p)
+						dup = true;
 
 				if (nextra >= 8)
 					continue;
@@ -238,7 +242,18 @@ static void run_cfg_case(struct rng *r, long c)
 							nextra++;
 					}
 				}
-				/* adding for real would start FSM threads over the dummy transport: done in the failover mode */
+				else if (cur < 7) {
+					/* a fresh preference must be accepted and sorted in (its sockets block in their connect) */
+					rc = rtr_mgr_add_group(conf, &ng2);
+					CNT("c15/add_group_fresh_preference");
+					if (rc != RTR_SUCCESS) {
+						snprintf(key, sizeof(key), "C15:add-group-fresh-preference-refused:rc%d", rc);
+						viol("C15", key, "rtr_mgr_add_group with the unused preference %u returned %d", p, rc);
+					} else {
+						have[cur++] = p;
+						nextra++;
+					}
+				}
 				hh = hmix(hh, 200 + p);
 			}
 			check_order(conf, "add/remove", cur);
